@@ -13,6 +13,7 @@ Proof. destruct t; cbn; try discriminate. eauto. Qed.
 Lemma decode_cbor_is_map cc w p c : decode_cbor cc w p = DOk c -> exists kvs, parse_all p = Some (CMap kvs).
 Proof.
   unfold decode_cbor. destruct (parse_all p) as [t|]; [|discriminate].
+  destruct (strip_tags t); try discriminate.
   destruct (decode_selector t) as [name| |] eqn:Sel; try discriminate.
   intros _. destruct (decode_selector_map t name Sel) as [kvs ->]. eauto.
 Qed.
@@ -41,8 +42,11 @@ Proof.
   destruct osg as [[|s0 sgb]|]; try discriminate.
   destruct p as [ | |content| | | | | | ]; try discriminate.
   assert (exists m, u = CMap m) as Um.
-  { destruct (dec_protected content); destruct u; cbn in CD; try discriminate; eauto. }
-  destruct (dec_protected content) as [a| |]; destruct (dec_unprotected u) as [a'| |]; try discriminate.
+  { destruct (dec_protected content) as [[a|]| |]; destruct u; cbn in CD; try discriminate; eauto. }
+  destruct (dec_protected content) as [a| |]; destruct (dec_unprotected u) as [a'| |]; try discriminate; try (destruct a; discriminate).
+  assert (CD' : match opl with None => DErr | Some plb => DOk {| v_prot := content; v_alg := a; v_payload := plb; v_sig := s0 :: sgb |} end = DOk v)
+    by (destruct a, a'; try discriminate; exact CD).
+  clear CD. rename CD' into CD.
   destruct opl as [plb|]; [|discriminate]. injection CD as <-. cbn [v_prot v_payload v_sig v_alg] in *.
   exists (x84 :: r'), u. split; [reflexivity|]. split; [reflexivity|].
   assert (pl = CBytes plb) as -> by (destruct pl; cbn in Apl; try discriminate; [congruence|destruct n as [|q]; try discriminate; repeat (destruct q as [q|q|]; try discriminate)]).
@@ -148,7 +152,7 @@ Proof.
   destruct (as_bstr_or_nil pl) as [opl|]; [|discriminate].
   destruct (as_bstr_or_nil sg) as [[[|s0 sgb]|]|]; try discriminate.
   destruct p; try discriminate.
-  destruct (dec_protected b); destruct (dec_unprotected u); try discriminate;
+  destruct (dec_protected b) as [[a|]| |]; destruct (dec_unprotected u) as [[a'|]| |]; try discriminate;
     destruct opl; try discriminate; intro H; injection H as <-; discriminate.
 Qed.
 
